@@ -304,11 +304,7 @@ def temporal_order(ctx, rng, idx):
     s = _linear_scn(rng, nmax=12, bc="per")
     vol = s.mesh.vol()
     if np.max(vol) / np.min(vol) > 1e3:
-        # sliver cells / strong stretching: the residual of a thin cell is O(|q|/dx_min), so the round-off of the code's sqrt(eps)
-        # finite-difference Jacobian is O(sqrt(eps)/dx_min) ABSOLUTE -- 0.1 for a cell 1e-7 times thinner than its neighbours -- and the
-        # observed order drops to one although the step formulas are right (exact-arithmetic twin: order two).  Limitation of the
-        # finite-difference Jacobian (DESIGN 9), not of the time-integration formulas this group is about
-        raise core.Skip("strongly stretched mesh: finite-difference Jacobian noise dominates")
+        raise core.Skip("strongly stretched mesh: judged by stretched_mesh_order")
     s.field.data[0] = gen.smooth(rng, s.mesh.centers(), s.mesh.length, -1.0, 1.0)
     A, b = operator(s.disc, s.model, s.mesh)
     lam = np.linalg.eigvals(A)
@@ -329,6 +325,67 @@ def temporal_order(ctx, rng, idx):
     ctx.describe(integrator=iname, T=T, errors=errs, orders=p, **s.desc())
     ctx.true("order", p[-1] >= need or errs[-1] < 1e-9, "order/%s/below-design" % iname, {"orders": p, "errors": errs, "need": need}, cls="order:" + iname)
     ctx.nontrivial("order", iname, s.desc())
+
+
+@group(quick=10, thorough=300)
+def stretched_mesh_order(ctx, rng, idx):
+    """temporal order on STRONGLY STRETCHED meshes (cell sizes 1e3...1e8 apart).  The residual of a thin cell is O(|q|/dx_min), so the
+    round-off of the code's sqrt(eps) finite-difference Jacobian is O(sqrt(eps)/dx_min) in absolute terms -- 0.1 for a cell 1e-7
+    times thinner than its neighbours -- and Crank-Nicolson / gear converge at first order although their formulas are right (the
+    same recurrences with the exact operator, computed here, converge at second order).  Known finding D20: own mechanism key."""
+    iname = ["cranknicolson", "gear", "implicit"][idx % 3]
+    import flowdyn.modelphy.convection as conv
+    if idx < 3:
+        # fixed witness (thorough-tier discovery): 7 cells, one of them 6.8e-8 wide, centred reconstruction, a = 1.407
+        xf = np.array([0.0, 0.2975452332843009, 0.6952663505984217, 0.9398046432556559, 1.19741607203748, 1.197416140529421, 1.721886681531542, 2.271])
+        mesh = gen.mesh_from_faces(xf); model = conv.model(1.407)
+        import flowdyn.xnum as xnum
+        disc = md.fvm(model, mesh, xnum.extrapolk(1.0)); rname = "centered"
+    else:
+        for _ in range(50):
+            sc = gen.scenario1d(rng, mname="convection", recons=gen.LINEAR_RECONS, bc="per", meshkinds=["arb", "refined"], nmin=4, nmax=12, warm=False)
+            v = sc.mesh.vol()
+            if np.max(v) / np.min(v) > 1e3:
+                break
+        else:
+            raise core.Skip("no stretched mesh drawn")
+        mesh, model, disc, rname = sc.mesh, sc.model, sc.disc, sc.rname
+    n = mesh.ncell
+    q0 = gen.smooth(rng, mesh.centers(), mesh.length, -1.0, 1.0)
+    f0 = ffield.fdata(model, mesh, [q0])
+    A, b = operator(disc, model, mesh)
+    lam = np.linalg.eigvals(A)
+    if np.max(lam.real) > 1e-9 * np.max(np.abs(lam)):
+        raise core.Skip("operator has growing modes")
+    T = 0.5 / np.max(np.abs(lam))
+    ref = expm(T * A) @ q0
+    I = np.eye(n)
+    th = THETA.get(iname, 0.5)
+    errs, exact = [], []
+    for ns in (8, 16, 32, 64):
+        solver = gen.integ(iname)(mesh, disc)
+        f = f0.copy()
+        for _ in range(ns):
+            solver.step(f, T / ns)
+        errs.append(np.max(np.abs(f.data[0] - ref)))
+        # the same recurrence with the exact operator
+        dt = T / ns
+        qa = q0.copy(); qb = np.linalg.solve(I - th * dt * A, (I + (1 - th) * dt * A) @ qa)
+        for _ in range(ns - 1):
+            if iname == "gear":
+                qa, qb = qb, np.linalg.solve(1.5 * I - dt * A, 2 * qb - 0.5 * qa)
+            else:
+                qa, qb = qb, np.linalg.solve(I - th * dt * A, (I + (1 - th) * dt * A) @ qb)
+        exact.append(np.max(np.abs(qb - ref)))
+    errs, exact = np.array(errs), np.array(exact)
+    p = np.log2(errs[:-1] / errs[1:]); pe = np.log2(exact[:-1] / exact[1:])
+    need = 0.75 if iname == "implicit" else 1.6
+    v = mesh.vol()
+    ctx.describe(integrator=iname, recon=rname, faces=np.asarray(mesh.xf), cell_size_ratio=float(np.max(v) / np.min(v)), T=T, errors=errs, orders=p, errors_with_exact_operator=exact, orders_with_exact_operator=pe)
+    ctx.true("stretched-order", p[-1] >= need or errs[-1] < 1e-9, "order/finite-difference-jacobian-noise-on-strongly-stretched-mesh/%s" % iname,
+             {"orders": p, "errors": errs, "need": need, "orders of the same recurrence with the exact operator": pe, "cell size ratio": float(np.max(v) / np.min(v))}, cls="order:" + iname)
+    ctx.true("stretched-order-formula", pe[-1] >= need or exact[-1] < 1e-9, "order/%s/recurrence-with-exact-operator-below-design" % iname, {"orders": pe}, cls="order:" + iname)
+    ctx.nontrivial("stretched", iname, idx, np.asarray(mesh.xf))
 
 
 def _smooth_scn(rng):
